@@ -242,6 +242,10 @@ OnRet(m00, e) ==
                IF Known(m0, t) THEN [m0 EXCEPT !.objs[t].roots = @ + 1] ELSE Flag(m0, TRUE, "HARNESS", "clonef of unknown target")
           [] op = "set" /\ ~pan /\ SlotOk(m0, fr.c.a, fr.c.k, fr.c.i) -> [m0 EXCEPT !.objs[fr.c.a] = SlotUpd(@, fr.c.k, fr.c.i, fr.c.b)]
           [] op = "setw" /\ ~pan /\ SlotOk(m0, fr.c.a, "w", fr.c.i) -> [m0 EXCEPT !.objs[fr.c.a] = SlotUpd(@, "w", fr.c.i, fr.c.o)]
+          [] op = "put" /\ ~pan /\ SlotOk(m0, fr.c.a, fr.c.k, fr.c.i) /\ Known(m0, o) /\ m0.objs[o].roots > 0 ->
+               [m0 EXCEPT !.objs[o].roots = @ - 1, !.objs[fr.c.a] = SlotUpd(@, fr.c.k, fr.c.i, o)]
+          [] op = "take" /\ ~pan /\ SlotOk(m0, fr.c.a, fr.c.k, fr.c.i) /\ Known(m0, Get(e, "o", 0)) ->
+               [m0 EXCEPT !.objs[e.o].roots = @ + 1, !.objs[fr.c.a] = SlotUpd(@, fr.c.k, fr.c.i, 0)]
           [] op = "unwrap" /\ Known(m0, o) ->
                IF res = "ok" THEN [m0 EXCEPT !.objs[o].infl = @ - 1, !.objs[o].vs = "moved"]
                ELSE [m0 EXCEPT !.objs[o].infl = @ - 1, !.objs[o].roots = @ + 1]
